@@ -14,6 +14,22 @@
 #include "lltdBlock.h"
 #include "lltd_esp32.h"
 
+/* guarded hook in lltdBlock.c: projection of the interface's record */
+typedef struct lltd_verif_iface_view {
+    uint8_t  mapper_known;
+    uint8_t  mapper_real[6];
+    uint8_t  mapper_apparent[6];
+    uint16_t mapper_seq;
+    uint16_t gen_topology;
+    uint16_t gen_quick;
+    uint8_t  icon_cached;
+    uint32_t see_count;
+    uint32_t see_listed;
+} lltd_verif_iface_view;
+int lltd_verif_iface_view_get(void *iface_ctx, lltd_verif_iface_view *out, uint8_t (*see)[18], size_t cap);
+#define SNAP_CAP 320
+static uint8_t snap_see[SNAP_CAP][18];
+
 static FILE *tr;
 static long lineno = 0;
 static long bootno = 0;
@@ -256,6 +272,23 @@ static void deliver(int id, size_t len, uint8_t fill, const uint8_t *pre, size_t
     vp_json_bytes(tr, buf, keep);
     fprintf(tr, ",\"pipe\":[%ld,%ld]", pipe_ev, pipe_idx);
     last_req_ev[id] = evno + 1;
+    /* projection of the real per-interface state after the request (state comparison with the model) */
+    lltd_verif_iface_view view;
+    memset(&view, 0, sizeof view);
+    int has = lltd_verif_iface_view_get(v, &view, snap_see, SNAP_CAP);
+    fprintf(tr, ",\"st\":{\"has\":%d,\"known\":%u,\"real\":", has, view.mapper_known);
+    vp_json_bytes(tr, view.mapper_real, 6);
+    fprintf(tr, ",\"app\":");
+    vp_json_bytes(tr, view.mapper_apparent, 6);
+    fprintf(tr, ",\"seq\":%u,\"gt\":%u,\"gq\":%u,\"icon\":%u,\"nsee\":%u,\"nlist\":%u,\"see\":[", view.mapper_seq, view.gen_topology,
+            view.gen_quick, view.icon_cached, view.see_count, view.see_listed);
+    if (has && view.see_listed <= SNAP_CAP) {
+        for (uint32_t i = 0; i < view.see_listed; i++) {
+            if (i) fputc(',', tr);
+            vp_json_bytes(tr, snap_see[i], 18);
+        }
+    }
+    fprintf(tr, "]}");
     fprintf(tr, ",\"out\":%s,\"live\":%ld,\"live0\":%ld,\"bytes\":%ld,\"flt\":%u,\"gf\":%u,\"na\":%ld,\"ns\":%ld}\n",
             vp_out_json(), v->live, live0, v->bytes, fired, gf, aseq, sseq);
     evno++;
